@@ -34,6 +34,6 @@ git clean -fdq
 export VERIF_REPO="$wt" VERIF_WORK="${MWORK:-/tmp/mwork}"
 mkdir -p "$VERIF_WORK"
 for p in "$prop" "$@"; do
-  (cd /tmp/vsnap && timeout 2400 ./check "$p" quick 2>&1 | grep -E "VIOLATION|KNOWN|seed=" | cut -c1-220)
+  (cd ${VSNAP:-/tmp/vsnap} && timeout 2400 ./check "$p" quick 2>&1 | grep -E "VIOLATION|KNOWN|seed=" | cut -c1-220)
 done
 git checkout -q -f -- . ; git clean -fdq
